@@ -263,6 +263,11 @@ func runC09(w *World, r *Report) {
 	r.Rule("word", "the LLDP TLV type/length word is packed and unpacked at type(7) | length(9)", 6)
 	r.Rule("demux", "payload switches allocate the kind the protocol-number table names", 12)
 	r.Rule("mirror", "fields written by an encoder are read back from the same offset, width and byte order into the same field", 40)
+	r.Rule("errfail", "in the codecs a failed step fails the whole: the branch for a non-nil error returns a non-nil error (no log-and-continue that leaves an element out while counts and declared lengths still include it)", 50)
+	errFailRule(w, r, "errfail", func(fi *FuncInfo) bool {
+		n := fi.Pkg.Types.Name()
+		return n == "openflow13" || n == "protocol" || n == "common"
+	})
 	r.Rule("extent", "the size a header reports equals the bytes its encoder produces", 15)
 	r.Rule("fresh", "a value decoded into inside a list loop is new in each iteration", 2)
 	r.Rule("exhaust", "list-decoding loops run while any element can remain", 2)
